@@ -155,6 +155,20 @@ def c01_3(ctx):
             if not pts:
                 raise Undecided("%s: the accepting return does not read a coordinate of the combined point" % fname)
             P = norm(pts[0].value)
+            # the x coordinate lives in [0, p), r in [1, n): it is compared with r after reduction modulo the order
+            # (the nonce points with n <= x < p are the recovery-id 2 / 3 signatures)
+            xs = [n for n in ast.walk(e.value) if isinstance(n, ast.Subscript) and norm(n.value) == P and isinstance(n.slice, ast.Constant) and n.slice.value == 0]
+            cmps = [c for c in ast.walk(e.value) if isinstance(c, ast.Compare) and len(c.ops) == 1 and isinstance(c.ops[0], ast.Eq) and any(any(x is y for y in ast.walk(c)) for x in xs)]
+            if xs and cmps:
+                def reduced(c):
+                    for side in [c.left] + list(c.comparators):
+                        for m in ast.walk(side):
+                            if isinstance(m, ast.BinOp) and isinstance(m.op, ast.Mod) and any(any(x is y for y in ast.walk(m.left)) for x in xs) and norm(m.right) in ORDER_TEXTS | {"order", "n"}:
+                                return True
+                    return False
+                ctx.check(all(reduced(c) for c in cmps), "x-reduced-mod-order:%s" % f.name, ctx.where(f, e.node),
+                          "%s compares the x coordinate of the combined point with r without reducing it modulo the group order: signatures whose nonce point has n <= x < p (r = x - n) are refused" % fname,
+                          sample={"comparison": norm(cmps[0])[-80:]})
             ops = gi.f_opaques(e.cond) if e.cond not in (True, False) else []
             inf = [o for o in ops if P in o and ("infinity" in o or "is None" in o)]
             ctx.check(bool(inf) and all(sym.entails(e.cond, ("not", ("op", o))) for o in inf if "==" in o or " is " in o), "coordinate-before-infinity-test:%s" % f.name, ctx.where(f, e.node),
